@@ -57,8 +57,10 @@ TCase ==
   /\ UNCHANGED run
 
 \* a worker process that died (abort, stack overflow, out of memory kill)
+\* ev.alloc > 0: the runtime reported "memory allocation of N bytes failed" (N saturated at 2^31 - 1)
 TCrash == /\ IsEvent("crash")
           /\ Fail("C06", "the process aborted", <<ev.signal, ev.last>>)
+          /\ Check(ev.alloc = 0, "C08", "an allocation request the process could not satisfy (abort)", <<ev.alloc, ev.last>>)
           /\ UNCHANGED run
 
 TNext == TReset \/ TBlock \/ TCase \/ TCrash
